@@ -49,7 +49,7 @@ def run(tier):
 
     ck = Check("C10", tier)
     ck.assumptions += ASSUMPTIONS
-    br = common.build()
+    br = common.build("C10")
     ck.proofs(br)
     if not br.ok:
         # cannot run the model: report the break (search below still runs on impl-only predicates)
